@@ -664,9 +664,9 @@ func TestC14Config(t *testing.T) {
 		y := c.yaml()
 		// now: before start, at every stage boundary +-1ns, after the end
 		var now int64 = 1_700_000_000_000_000_000 + r.Range(0, 2000)*1_000_000_000
+		var cand []int64
 		if c.start != nil {
 			cum := int64(0)
-			var cand []int64
 			cand = append(cand, -5_000_000_000, 0)
 			for _, s := range c.stages {
 				d := s.dur
@@ -724,6 +724,22 @@ func TestC14Config(t *testing.T) {
 		o.Count("config-outcome", strings.SplitN(out, " ", 2)[0])
 		o.Count("config-stages", kit.I(len(c.stages)))
 		o.Case("parse_config", []string{c.enc(), kit.I(now)}, out, tags...)
+		if c.start != nil && i%3 == 0 && !crashed && err == nil {
+			// the same bytes read again at other instants (a restart, a chart and then a run), later
+			// and earlier ones: every reading plans from the file and its own instant alone
+			for q := int(r.Range(2, 4)); q > 0; q-- {
+				again := *c.start*1_000_000_000 + cand[r.Intn(len(cand))]
+				var rs2 *file.RunnableStages
+				var err2 error
+				crashed2, _ := kit.Guard(func() { rs2, err2 = file.ParseConfigFile([]byte(y), time.Unix(0, again)) })
+				out2 := kit.Res(crashed2, err2, "")
+				if !crashed2 && err2 == nil {
+					out2 = "ok " + planOut(rs2, time.Unix(0, again))
+				}
+				o.Case("parse_config", []string{c.enc(), kit.I(again)}, out2, append(tags, "reread")...)
+			}
+			o.Count("config", "same bytes read at several instants")
+		}
 	}
 }
 
